@@ -181,7 +181,7 @@ def run_packing(cfg, out):
                                 run.c.inc("non_bytes_payload_refused")
                             except Exception as e:
                                 run.report("C09", "send-raised-other", "send(%s) raised %r instead of TypeError" % (type(obj).__name__, e))
-                if staged is None and mode >= 0.7 and mode < 0.78:
+                if staged is None and (mode >= 0.7 and mode < 0.78 or (t in (20, 120) and mtu >= 1345)):
                     # resend + fresh: k1 empty BEST_EFFORT messages go out into an outage (nothing is acked); once their
                     # resend is overdue the application adds k2 fresh empty messages in one tick: the datagram built then is
                     # offered k1 + k2 > 255 zero-length messages
@@ -191,7 +191,10 @@ def run_packing(cfg, out):
                         w.net.set(c2s=L.Policy(outage=True), s2c=L.Policy(outage=True))
                         for _ in range(r.choice([120, 200, 250])):
                             run.app.send(ep0, side0, 0, 1, with_cb=False)
-                        staged = (t + r.randint(7, 10), side0, r.choice([60, 150, 250]))
+                        # (the resend of a BEST_EFFORT message is due one keep-alive interval after it was sent)
+                        conn0 = c.udp.conn if side0 == "client" else ep0
+                        due = int((getattr(conn0, "send_keep_alive_interval", 0.1) + 0.03) / w.dt) + 1
+                        staged = (t + max(due, r.randint(7, 10)), side0, r.choice([60, 150, 250]))
                         run.c.inc("resend_plus_fresh_floods")
                 if staged is not None:
                     if t == staged[0]:
